@@ -936,6 +936,9 @@ func (c *Catalogue) buildSec(in *Inst, r *Rng) {
 		dir = uint8(r.Intn(256))
 	}
 	n := r.Len(300)
+	if r.Chance(4) && (strings.HasSuffix(in.Spec.Name, "2") || strings.HasSuffix(in.Spec.Name, "/0")) {
+		n = 4000 + r.Intn(5200) // AES and the null algorithms are cheap enough for PDUs beyond 4 KiB
+	}
 	payload := r.Bytes(n)
 	if r.Chance(4) {
 		payload = nil
@@ -946,9 +949,13 @@ func (c *Catalogue) buildSec(in *Inst, r *Rng) {
 	}
 	if in.Spec.Var != 0 {
 		vr := NewRng(in.Spec.Var)
-		switch vr.Intn(4) {
+		switch vr.Intn(6) {
 		case 0, 1:
 			key[vr.Intn(16)] ^= byte(1 << uint(vr.Intn(8)))
+		case 4:
+			bearer ^= byte(1 << uint(vr.Intn(5))) // same key and COUNT, another bearer
+		case 5:
+			dir ^= 1 // same key and COUNT, other direction
 		case 2:
 			if len(payload) > 0 {
 				payload[vr.Intn(len(payload))] ^= byte(1 << uint(vr.Intn(8)))
@@ -1337,6 +1344,58 @@ func (c *Catalogue) buildShared(in *Inst, env *Env, r *Rng) {
 				}
 			}
 		}
+		// parsers of IE contents applied to the shared IE's bytes (QoS rules, flow
+		// descriptions, PCO, UE policy structures): reading the shared buffer into a
+		// private structure
+		rtKeys := make([]string, 0, len(c.autoRT))
+		for key := range c.autoRT {
+			rtKeys = append(rtKeys, key)
+		}
+		sort.Strings(rtKeys) // never iterate a map in a decision path: the job list must be a function of the seed
+		for _, key := range rtKeys {
+			pair := c.autoRT[key]
+			t := c.Types[key]
+			if t == nil {
+				continue
+			}
+			for _, p := range ies {
+				b := directField(p.Elem(), "Buffer")
+				if !b.IsValid() || b.Type() != byteSliceType || b.Len() == 0 || !r.Chance(4) {
+					continue
+				}
+				um := reflect.New(t.T).MethodByName(pair[1])
+				if um.IsValid() {
+					jobs = append(jobs, job{um, b})
+				}
+			}
+		}
+		// helpers with several parameters: the ones that match an IE of the message come
+		// from it, the others are synthesised
+		for i := range RegFuncs {
+			f := &RegFuncs[i]
+			ft := f.Fn.Type()
+			if f.Pkg != "nasConvert" || ft.NumIn() < 2 || ft.IsVariadic() || !r.Chance(50) {
+				continue
+			}
+			args, ok := SynthArgs(r.Fork(), ft, f.Params, 0, f.Name)
+			if !ok {
+				continue
+			}
+			used := false
+			for k := 0; k < ft.NumIn(); k++ {
+				for _, p := range ies {
+					if ft.In(k) == p.Type() {
+						args[k], used = p, true
+					} else if ft.In(k) == p.Type().Elem() {
+						args[k], used = p.Elem(), true
+					}
+				}
+			}
+			if used {
+				fn, as := f.Fn, args
+				jobs = append(jobs, job{reflect.ValueOf(func(reflect.Value) []reflect.Value { return fn.Call(as) }), reflect.Value{}})
+			}
+		}
 		if len(jobs) > 24 {
 			// deterministic subset
 			for i := len(jobs) - 1; i > 0; i-- {
@@ -1364,6 +1423,16 @@ func (c *Catalogue) buildShared(in *Inst, env *Env, r *Rng) {
 						}
 					}()
 					vsimrt.ArmLimit(60000)
+					if !j.arg.IsValid() {
+						// multi-parameter helper wrapped in a closure
+						rs := j.f.Call([]reflect.Value{reflect.ValueOf(reflect.Value{})})
+						if len(rs) == 1 {
+							if vs, ok := rs[0].Interface().([]reflect.Value); ok {
+								out = append(out, ifaces(vs)...)
+							}
+						}
+						return
+					}
 					out = append(out, ifaces(j.f.Call([]reflect.Value{j.arg}))...)
 				}()
 			}
@@ -1668,6 +1737,17 @@ func (c *Catalogue) chainTargets(recv reflect.Value) []chainTarget {
 // after the other, each with fresh arguments.
 func (c *Catalogue) buildChain(in *Inst, t *RegType, r *Rng) {
 	recv := c.newReceiver(t.T, r)
+	if f := c.Funcs[t.Pkg+".New"+t.Name]; f != nil && r.Chance(35) {
+		// the value as its constructor builds it (e.g. with a particular IEI)
+		if args, ok := SynthArgs(r, f.Fn.Type(), f.Params, 0, f.Name); ok {
+			func() {
+				defer func() { recover() }()
+				if rs := f.Fn.Call(args); len(rs) > 0 && rs[0].Type() == recv.Type() && !rs[0].IsNil() {
+					recv = rs[0]
+				}
+			}()
+		}
+	}
 	if in.Spec.Var != 0 {
 		perturbArgs([]reflect.Value{recv}, NewRng(in.Spec.Var))
 	}
